@@ -146,6 +146,12 @@ func (dmx *Demuxer) NextData() (d *DemuxerData, err error) {
 						break
 					}
 
+					// Packets that don't start with a payload unit start are the tail of a unit whose beginning
+					// has been lost: there's nothing to parse
+					if !ps[0].Header.PayloadUnitStartIndicator {
+						continue
+					}
+
 					// Parse data
 					var errParseData error
 					if ds, errParseData = parseData(ps, dmx.optPacketsParser, dmx.programMap); errParseData != nil {
@@ -169,6 +175,12 @@ func (dmx *Demuxer) NextData() (d *DemuxerData, err error) {
 
 		// Add packet to the pool
 		if ps = dmx.packetPool.addUnlocked(p); len(ps) == 0 {
+			continue
+		}
+
+		// Packets that don't start with a payload unit start are the tail of a unit whose beginning has been lost
+		// (packet loss, or joining the stream mid-unit): there's nothing to parse
+		if !ps[0].Header.PayloadUnitStartIndicator {
 			continue
 		}
 
